@@ -2,6 +2,7 @@
 import mpmath
 from common import cz, copt
 from plotink import ebb_calc, ebb_motion
+from props import ebbgen
 
 ID = "C03"
 COQ_HEADER = "From Plotink Require Import Base.Prelude Corr.C03.\nOpen Scope Z_scope."
@@ -67,7 +68,7 @@ def _acc(rng):
     return rng.randint(0, M)
 
 def _candidate(rng):
-    fam = rng.choice(["noreversal", "reversal_small", "reversal_large", "zero_at_tick", "constant", "boundary", "early_reversal", "legacy", "invalid", "tiny", "long", "knife", "knife"])
+    fam = rng.choice(["noreversal", "reversal_small", "reversal_large", "zero_at_tick", "constant", "boundary", "early_reversal", "legacy", "invalid", "tiny", "long", "knife", "knife", "zero_disc"])
     s = lambda: rng.choice([1, -1])
     if fam == "invalid":
         return rng.choice([(0, rng.randint(-9, 9), rng.randint(-9, 9)), (rng.randint(1, 9), 0, 0), (-rng.randint(1, 9), -rng.randint(1, 10**6), rng.randint(-5, 5))]), fam
@@ -115,6 +116,17 @@ def _candidate(rng):
         if steps < 1: return (1, 1, 0), "tiny"
         sg = s()
         return (steps, sg * (r0 + tq(a, 2)), sg * a, acc if sg > 0 else M - acc), fam
+    if fam == "zero_disc":
+        # the budget is reached exactly at the tick where the rate has fallen to zero, with the total exactly on the step boundary: the
+        # quadratic has a double root (discriminant 0); and the same move with the accumulator one unit off either way
+        T = rng.choice([2, 3, 4, 16, 256, rng.randint(2, 40000)]); j = rng.randint(1, max(1, M // (2 * T - 1)))
+        if rng.random() < 0.5: j = max(1, min(j, (B // (T * T) + 1) * rng.randint(1, 3)))
+        acc = (-j * T * T) % B
+        steps = (acc + j * T * T) // B
+        r0 = j * (2 * T + 1); a = -2 * j
+        acc = (acc + rng.choice([0, 0, 0, 1, -1])) % B
+        sg = s()
+        return (steps * rng.choice([1, 1, 1, -1]) if sg > 0 else steps, sg * (r0 + tq(a, 2)), sg * a, acc if sg > 0 else M - acc), fam
     if fam == "long":
         rate = s() * rng.randint(1, 2000); return (rng.randint(1, 2000), rate, rng.choice([0, 0, 1, -1]) if abs(rate) > 500 else 0), fam
     return (1, 1, 0), fam
@@ -132,7 +144,14 @@ def generate(rng, tier):
         t = truth(steps, rate, accel, acc)
         if t == "OUT": continue
         entry = 1 if (acc is None and rng.random() < 0.15) else 0
-        cases.append({"entry": entry, "steps": steps, "rate": rate, "accel": accel, "acc": acc, "family": fam, "truth": list(t)})
+        c = {"entry": entry, "steps": steps, "rate": rate, "accel": accel, "acc": acc, "family": fam, "truth": list(t)}
+        r = rng.random()
+        if r < 0.1 and entry == 0 and fam != "invalid":
+            # the same request evaluated a moment ago from another accumulator state / with another budget; arguments by keyword or not
+            c["pre"] = [rng.choice([(steps, ebbgen.sibling_acc(rng, acc)), (steps + 1, acc), (max(1, abs(steps) // 2), acc)]) for _ in range(rng.choice([1, 1, 2]))]
+            c["kw"] = rng.choice([0, 1, 1, 2]); c["family"] += "/after-sibling-call"
+        elif r < 0.2: c["kw"] = rng.choice([1, 2]) if entry == 0 else 2; c["family"] += "/keyword-arguments"
+        cases.append(c)
     return cases
 
 def _clear(c):
@@ -140,15 +159,23 @@ def _clear(c):
     command line passes: equal to "clear" but a different object)"""
     return "clear" if (c["rate"] + c["accel"]) % 2 else "".join(("cle", "ar"))
 
+def _lm(c, steps, acc_v, kw):
+    if acc_v is None and (c["steps"] + c["accel"]) % 3 == 0 and kw != 1:
+        return ebbgen.call(ebb_calc.calculate_lm, (steps, c["rate"], c["accel"]), kw)          # argument omitted: the documented default is "clear"
+    return ebbgen.call(ebb_calc.calculate_lm, (steps, c["rate"], c["accel"], _clear(c) if acc_v is None else acc_v), kw)
+
 def run_impl(c):
-    mpmath.mp.dps = [5, 15, 30, 50][(c["steps"] + c["rate"]) % 4]
+    dps = [5, 15, 30, 50][(c["steps"] + c["rate"]) % 4]
+    mpmath.mp.dps = dps
+    kw = c.get("kw", 0)
     try:
         if c["entry"] == 1:
-            t = ebb_motion.moveTimeLM(c["rate"], c["steps"], c["accel"]); return {"T": int(t), "p": 0, "c": 0}
-        if c["acc"] is None and (c["steps"] + c["accel"]) % 3 == 0:
-            t, p, a = ebb_calc.calculate_lm(c["steps"], c["rate"], c["accel"])          # argument omitted: the documented default is "clear"
-        else:
-            t, p, a = ebb_calc.calculate_lm(c["steps"], c["rate"], c["accel"], _clear(c) if c["acc"] is None else c["acc"])
+            t = ebbgen.call(ebb_motion.moveTimeLM, (c["rate"], c["steps"], c["accel"]), kw); return {"T": int(t), "p": 0, "c": 0}
+        for (st0, a0) in c.get("pre", []):
+            try: _lm(c, st0, a0, kw)
+            except Exception: pass
+            mpmath.mp.dps = dps
+        t, p, a = _lm(c, c["steps"], c["acc"], kw)
         return {"T": int(t), "p": int(p), "c": int(a)}
     finally:
         mpmath.mp.dps = 15
